@@ -188,7 +188,7 @@ class Engine:
         v = p.obj.v
         for i in p.path:
             v = v[i]
-        if type(v) is list:
+        if isinstance(v, list):
             return freeze(v)
         return v
 
@@ -206,8 +206,12 @@ class Engine:
             return
         c = obj.v
         for i in path[:-1]:
+            if type(c) is ClockList:
+                c.ns = None
             c = c[i]
         k = path[-1]
+        if type(c) is ClockList:
+            c.ns = None
         if obj.epoch != self.epoch:
             self.undo.append((obj, c, k, c[k]))
         c[k] = val
@@ -250,7 +254,7 @@ class Engine:
         for k in s.path:
             v = v[k]
         r = v[s.off:s.off + s.len]
-        return [freeze(e) if type(e) is list else e for e in r]
+        return [freeze(e) if isinstance(e, list) else e for e in r]
 
     def slice_set(self, s, i, val):
         self.store(Ptr(s.obj, s.path + (s.off + i,)), val)
